@@ -419,7 +419,7 @@ def multi_dynamic(ctx, names, make_hists, oracle, keep, what, corpus_pid=None):
             impl.cleanup()
 
 
-QUICK_CONFIGS = ("dev", "release", "release-avx2", "release-nostd-sse41")
+QUICK_CONFIGS = ("dev", "release", "release-avx2", "release-nostd-sse41", "release-native")
 ALL_CONFIGS = tuple(C.CONFIGS.keys())
 
 
@@ -680,6 +680,10 @@ def c07(ctx):
     proof_verdict(ctx, ok)
 
 
+INT_WIDTH = {"u8": 1, "u16": 2, "u32": 4, "u64": 8, "u128": 16, "usize": 8, "i8": 1, "i16": 2, "i32": 4, "i64": 8, "i128": 16, "isize": 8}
+INT_KINDS = tuple(INT_WIDTH)
+
+
 def random_history(rng, ops, nregs=3, maxops=14, blobs=True):
     """a random well-formed history over the whole operation language (x86 backends)"""
     lines = []
@@ -710,7 +714,16 @@ def random_history(rng, ops, nregs=3, maxops=14, blobs=True):
         m = rng.below(13)
         if m < 5:
             d = G.rand_data(rng, rng.choice(G.CHUNK_LENS + [rng.below(300)]))
-            lines.append("%s %d %s" % (rng.choice(ops), r, hexs(d)))
+            sub = rng.below(12)
+            if sub == 0 and "write" in ops:
+                # io::Write::write_vectored: a short header and a payload (sometimes larger than any small staging buffer)
+                big = G.rand_data(rng, rng.choice([0, 3, 40, 1100, 1500]))
+                lines.append("writev %d %s %s" % (r, hexs(d[:8]), hexs(big)))
+            elif sub == 1:
+                ik = rng.choice(INT_KINDS)
+                lines.append("hwint %d %s %s" % (r, ik, hexs(G.rand_data(rng, INT_WIDTH[ik]))))
+            else:
+                lines.append("%s %d %s" % (rng.choice(ops), r, hexs(d)))
         elif m == 5:
             lines.append("finish %d" % r)
         elif m == 6:
@@ -1033,8 +1046,19 @@ def c12(ctx):
                     aux += 1
             lines += ["finish 0", "new %d D %s" % (aux, G.keystr(key)), "hash64 %d %s" % (aux, hexs(sofar))]
             hists.append(History(hid, lines, {"backend": b}))
-        # large single buffers through every entry point (a write must consume ALL of it, whatever its size)
+        # io::Write::write_vectored: whatever count n it reports (std's provided method takes the first non-empty buffer; taking
+        # more is allowed), finish must be the hash of the earlier bytes followed by exactly the first n bytes of the buffers
         hid = len(hists)
+        for i in range(60 if ctx.tier == "quick" else 3000):
+            key = G.rand_key(rng)
+            b = rng.choice(X86_BACKENDS + ("B",))
+            pre = G.rand_data(rng, rng.choice([0, 1, 31, 32, 40]))
+            bufs = [G.rand_data(rng, rng.choice([0, 0, 1, 8, 33, 64, 1100])) for _ in range(1 + rng.below(3))]
+            lines = [ctor(b, 0, key), "append 0 %s" % hexs(pre), "writev 0 %s" % " ".join(hexs(x) for x in bufs), "finish 0"]
+            hists.append(History(hid, lines, {"backend": b, "vec": True, "key": key, "pre": pre, "bufs": bufs}))
+            ctx.count("write_vectored")
+            hid += 1
+        # large single buffers through every entry point (a write must consume ALL of it, whatever its size)
         sizes = [8191, 8192, 8193, 65535, 65536, 65537, 100000] + ([1 << 20, (1 << 20) + 1] if ctx.tier == "thorough" else [])
         for n in sizes:
             for k, op in enumerate(("write", "writeall", "iocopy", "hwrite")):
@@ -1055,6 +1079,24 @@ def c12(ctx):
         # walk script and transcript together (one output line per op)
         outs = [l for l in il if not l.startswith("ALLOC")]
         if len(outs) != len(h.lines):
+            return None
+        if any(l.startswith("writev") for l in h.lines):
+            # recompute from the script (shrink candidates included): bytes before, the vectored write, finish
+            if len(h.lines) != 4 or not h.lines[1].startswith("append 0") or not h.lines[2].startswith("writev 0") or h.lines[3] != "finish 0":
+                return None
+            t = h.lines[1].split()
+            pre = b"" if t[2] == "-" else bytes.fromhex(t[2])
+            cat = b"".join(b"" if x == "-" else bytes.fromhex(x) for x in h.lines[2].split()[2:])
+            w = outs[2].split()
+            if w[0] != "W" or not outs[3].startswith("FIN "):
+                return "write_vectored failed: %s" % outs[2]
+            n = int(w[1])
+            if n > len(cat) or (cat and n == 0):
+                return "write_vectored over %d bytes reported %d" % (len(cat), n)
+            key = tuple(int(x, 16) for x in h.lines[0].split()[3:7])
+            want = C.spec_run([(64, key, pre + cat[:n])])[0].split()[1]
+            if outs[3].split()[1] != want:
+                return "after write_vectored reported %d bytes, finish is %s but HighwayHash64 of the bytes written so far is %s" % (n, outs[3].split()[1], want)
             return None
         last_fin = []
         sofar = ""
@@ -1085,10 +1127,6 @@ def c12(ctx):
     hashone_check(ctx)
     facts_gate(ctx, "C12")     # adapters come only from the two audited macros of src/macros.rs
     proof_verdict(ctx, ok)
-
-
-INT_WIDTH = {"u8": 1, "u16": 2, "u32": 4, "u64": 8, "u128": 16, "usize": 8, "i8": 1, "i16": 2, "i32": 4, "i64": 8, "i128": 16, "isize": 8}
-INT_KINDS = tuple(INT_WIDTH)
 
 
 def hashone_check(ctx):
@@ -1433,7 +1471,7 @@ def c10(ctx):
                            "non-trivial = distinct (configuration, script)")
     ok = proof_gate(ctx, "theories/Properties/C10.v",
                     ["C10_selection_permitted", "C10_source_ladders", "C10_dispatch_tables", "C10_safe_constructors",
-                     "C10_default_and_builder", "C10_results_equal_portable"])
+                     "C10_default_and_builder", "C10_configuration_space", "C10_results_equal_portable"])
     ensure_model(ctx)
     seed_rng = Rng(ctx.seed).fork("C10")
 
@@ -1491,7 +1529,7 @@ def c10(ctx):
         return oracle
 
     keep = DIGEST + ("PANIC", "FAULT", "TAG", "NONE", "OK")
-    names = ("dev", "release", "release-avx2", "dev-nostd", "release-nostd-sse41", "dev-sse41-noavx2") if ctx.tier == "quick" else ALL_CONFIGS
+    names = ("dev", "release", "release-avx2", "dev-nostd", "release-nostd-sse41", "dev-sse41-noavx2", "release-native") if ctx.tier == "quick" else ALL_CONFIGS
     for name in names:
         impl = get_impl(ctx, name)
         hists = make(impl)
@@ -1570,8 +1608,9 @@ def c18(ctx):
         for n in ([1 << 12, 1 << 16] if ctx.tier == "quick" else [1 << 12, 1 << 16, 1 << 20]):
             for b in X86_BACKENDS:
                 d = rng.bytes(n, 0)
-                lines = [ctor(b, 0, G.REF_KEY), "%s 0 %s" % (ops[-1], hexs(d)), "append 0 %s" % hexs(d[:77]), "ckpt 0", "debug 0", "clone 1 0",
-                         "finish 1", "fin256 0", "fin64 1"]
+                lines = [ctor(b, 0, G.REF_KEY), "%s 0 %s" % (ops[-1], hexs(d)), "append 0 %s" % hexs(d[:77])] + \
+                        (["writev 0 %s %s" % (hexs(d[:8]), hexs(d[8:2000])), "writev 0 - %s %s" % (hexs(d[:3]), hexs(d[3:40]))] if "write" in ops else []) + \
+                        ["ckpt 0", "debug 0", "clone 1 0", "finish 1", "fin256 0", "fin64 1"]
                 hists.append(History(hid, lines, {"big": n}))
                 hid += 1
         return hists
